@@ -18,10 +18,21 @@ for pid in ids:
     env = dict(os.environ, VERIF_COLLECT_BATTERY="1", VERIF_NO_EVIDENCE="1", VERIF_NO_BATTERY="1")
     subprocess.run([os.path.join(VERIF, "vcheck"), pid, "--tier", "quick"], env=env, cwd=VERIF, stdout=subprocess.DEVNULL, stderr=subprocess.DEVNULL)
     raw = json.load(open(os.path.join(VERIF, "battery", "%s.raw.json" % pid)))
+    import importlib
+    for spec, inp in getattr(importlib.import_module("vf.props." + pid), "BATTERY_EXTRA", []):
+        raw.append([spec, json.dumps(inp, sort_keys=True)])  # questions that are only asked when something already went wrong
     keep = []
     per_fn = {}
+    # spread the choice over the whole run (the raw list is in job order: one kind / mode after the other)
+    by_fn = {}
     for spec, text in raw:
-        if per_fn.get(spec, 0) >= 8:
+        by_fn.setdefault(spec, []).append(text)
+    spread = []
+    for spec, texts in by_fn.items():
+        step = max(1, len(texts) // (40 if 'C19' in spec else 10))
+        spread += [(spec, t) for t in texts[::step]]
+    for spec, text in spread:
+        if per_fn.get(spec, 0) >= (40 if 'C19' in spec else 8):
             continue  # a handful of fixed inputs per replay function
         t0 = time.time()
         out = core.run_battery([[spec, text]], timeout=120)
